@@ -348,7 +348,7 @@ fn run(args: &Args, rep: &mut Report) {
         prop_par(
             "style-setter-sequences",
             args.seed,
-            tier.pick(100_000, 2_000_000),
+            tier.pick(100_000, 8_000_000),
             || proptest::collection::vec(arb_op(), 1..20),
             |ops, _| match check_ops(ops) {
                 Ok(()) => Verdict::ok((ops.len() >= 2).then(|| digest_str(&format!("{:?}", ops)))),
